@@ -44,16 +44,16 @@ def jobs(tier):
     return js
 
 
-def _draw_claims(J, r, ent, bits, nbytes, width_t, start_t, result, cex):
+def _draw_claims(J, r, ent, bits, nbytes, width_t, start_t, result, cex, oracle="randrange"):
     calls = ent.calls
     J.claim(r, "each draw requests exactly ceil(bits/8) bytes [bits=%d]" % bits,
-            all(n == nbytes for n, _ in calls) and nbytes == (bits + 7) // 8, cex=cex, oracle="randrange")
+            all(n == nbytes for n, _ in calls) and nbytes == (bits + 7) // 8, cex=cex, oracle=oracle)
     cands = [b.value() % (2 ** bits) for _, b in calls]
     J.claim(r, "earlier draws were rejected because candidate >= width [%d draws]" % len(calls),
-            z3.And([c >= width_t for c in cands[:-1]]) if len(cands) > 1 else True, cex=cex, oracle="randrange")
-    J.claim(r, "accepted candidate = last draw mod 2^bits, and < width", cands[-1] < width_t, cex=cex, oracle="randrange")
-    J.claim(r, "result = start + candidate", T(result) == start_t + cands[-1], cex=cex, oracle="randrange")
-    J.claim(r, "start <= result < stop", z3.And(T(result) >= start_t, T(result) < start_t + width_t), cex=cex, oracle="randrange")
+            z3.And([c >= width_t for c in cands[:-1]]) if len(cands) > 1 else True, cex=cex, oracle=oracle)
+    J.claim(r, "accepted candidate = last draw mod 2^bits, and < width", cands[-1] < width_t, cex=cex, oracle=oracle)
+    J.claim(r, "result = start + candidate", T(result) == start_t + cands[-1], cex=cex, oracle=oracle)
+    J.claim(r, "start <= result < stop", z3.And(T(result) >= start_t, T(result) < start_t + width_t), cex=cex, oracle=oracle)
 
 
 def job_randrange(J, lo, hi, draws):
@@ -132,15 +132,14 @@ def job_group_scalar(J, gname, draws):
         ent = Entropy("e", max_calls=draws)
         ctx.data["w"] = dict(ent=ent)
         return g.random_scalar(ent)
-    for r in J.explore(h):
+    for r in J.explore(h, fallback=("group_scalar", dict(group=gname, chunks=[]))):
         ent = r.ctx.data["w"]["ent"]
         J.reach(r)
         cex = lambda m, ent=ent: dict(group=gname, chunks=[b.model_bytes(m) for _, b in ent.calls])
         if r.kind != "ret":
             J.claim(r, "random_scalar does not raise (%s)" % type(r.value).__name__, False, cex=cex, oracle="group_scalar")
             continue
-        _draw_claims(J, r, ent, bits, nb, z3.IntVal(q), z3.IntVal(0), r.value,
-                     lambda m, ent=ent: dict(start=0, width=q, chunks=[b.model_bytes(m) for _, b in ent.calls]))
+        _draw_claims(J, r, ent, bits, nb, z3.IntVal(q), z3.IntVal(0), r.value, cex, oracle="group_scalar")
 
 
 def job_ed_scalar(J):
@@ -270,6 +269,10 @@ def oracle_group_scalar(group, chunks):
     g = getattr(groups, group) if hasattr(groups, group) else C.toy_group(group)
     nb = (g.q.bit_length() + 7) // 8
     tests = [chunks] + [[(v % (1 << (8 * nb))).to_bytes(nb, "big")] for v in (g.q - 1, g.q, g.q + 1, (1 << (8 * nb)) - 1, 0)]
+    if nb <= 2:         # small custom groups: every first draw
+        tests += [[v.to_bytes(nb, "big")] for v in range(256 ** nb)]
+    else:               # every value of the top byte, with low bytes of both extremes
+        tests += [[bytes([t]) + fill * (nb - 1)] for t in range(256) for fill in (b"\x00", b"\xff")]
     for ch in tests:
         ch = [(c + bytes(nb))[:nb] for c in ch] + [bytes(nb)]
         it = iter(ch)
